@@ -602,6 +602,7 @@ class Forest:
             base = os.environ.get("TMPDIR") or tempfile.gettempdir()
             self.tmpdir = tempfile.mkdtemp(prefix=f"verif-{os.getpid()}-", dir=base)
             real_dir = self.tmpdir
+            self.stat("real_disk_runs")
         self.client = cl.ClientProgram(self.cfg["sites"], f"{self.case.get('seed', 0)}",
                                        real_dir=real_dir)
 
